@@ -33,6 +33,9 @@ def rx_scenario(rng, tier, big=False):
             continue
         fid, ext, _ = gen.rx_match_frame(a, b'')
         msgs.append((payload, frames))
+        if len(payload) <= 3000:
+            # ties the generator's notion of "well-formed stream" to the Lean Spec: the reference decoder must give the payload back
+            ops.append({'op': 'specreasm', 'prelen': len(pre), 'frames': frames, 'payload': payload})
         batch = rng.choice([1, 1, 2, 5, 1000])
         cnt = 0
         for fr in frames:
